@@ -33,8 +33,11 @@ def pair_bins(pos, H, ppp, w, nb):
 
 def ref_gr(frames, H, types, ppp, w, boxlength=None):
     """Returns (columns, r, lo, hi): per column lower/upper bound arrays of the normalised g."""
-    H = np.asarray(H, float)
-    types = np.asarray(types)
+    # H: one cell or one per frame (same edge lengths, tilts may change); types: one list or one per frame (same composition)
+    Hf = [np.asarray(h, float) for h in H] if np.ndim(H) == 3 else [np.asarray(H, float)] * len(frames)
+    H = Hf[0]
+    tf = [np.asarray(t) for t in types] if np.ndim(types[0]) > 0 else [np.asarray(types)] * len(frames)
+    types = tf[0]
     d = H.shape[0]
     L = np.diag(H) if boxlength is None else np.asarray(boxlength, float)
     V = float(np.prod(L))
@@ -47,9 +50,9 @@ def ref_gr(frames, H, types, ppp, w, boxlength=None):
         cols += [f"gr{a}{b}" for a in tl for b in tl if a <= b]
     lo = {c: np.zeros(nb) for c in cols}
     hi = {c: np.zeros(nb) for c in cols}
-    for pos in frames:
-        for (i, j, rr, k, amb) in pair_bins(pos, H, ppp, w, nb):
-            a, b = sorted((int(types[i]), int(types[j])))
+    for pos, Hc, tc in zip(frames, Hf, tf):
+        for (i, j, rr, k, amb) in pair_bins(pos, Hc, ppp, w, nb):
+            a, b = sorted((int(tc[i]), int(tc[j])))
             names = ["gr"] + ([f"gr{a}{b}"] if 1 < K <= 5 else [])
             for c in names:
                 if amb is None:
